@@ -158,6 +158,8 @@ def shapes(tier):
     for v in ("int", "frac", "float"):
         out += [["L", "P.sqA#" + v], ["L", "P.triA#" + v], ["L", "P.L#" + v], ["L", "P.U#%s@cw" % v]]
         out += [["PC", n, v] for n in ("hollow", "two", "xtwo", "xhollow")]
+        if v != "frac":
+            out += [["PC", n, v] for n in ("holeisland", "ringfar")]  # a component with a hole next to another component
     out += [["L", "Q.c8"], ["L", "Q.lens@cw"], ["L", "Q.blob"], ["CQ", "ringc"], ["L", "Q.dblh"], ["L", "Q.zeroh@cw"]]
     return out
 
@@ -314,8 +316,6 @@ def membership_and_eq(e, ts):
     size = max(c.size() for c in curves)
     bx = (min(c.box()[0] for c in curves), min(c.box()[1] for c in curves), max(c.box()[2] for c in curves), max(c.box()[3] for c in curves))
     S = build_shape(e)
-    for t in ts:
-        apply_lib(S, t)
     pts = []
     for i in range(5):
         for j in range(5):
@@ -323,6 +323,15 @@ def membership_and_eq(e, ts):
             if reg0.near_boundary(p, size / 100):
                 continue
             pts.append(p)
+    # the SAME object is asked before and after the transformation ("contains T(p) iff S contained p")
+    for p in pts:
+        q0 = (float(p[0]), float(p[1]))
+        st, got = call_limited(lambda: q0 in S, 30)
+        if st != "ok" or bool(got) != (reg0.contains(p) == rg.IN):
+            fails.append(("membership-before", "p in S is %r for p = %s" % (got if st == "ok" else st, oc.fmt_pt(p))))
+            return fails
+    for t in ts:
+        apply_lib(S, t)
     for p in pts:
         m = model_apply([[p[0], p[1], False, False]], ts[0])[0]
         q = (float(m[0]), float(m[1]))
